@@ -2,6 +2,7 @@ package main
 
 import (
 	"go/ast"
+	"go/token"
 	"go/types"
 )
 
@@ -20,24 +21,79 @@ func init() {
 		}
 		info := pk.TypesInfo
 		defs := localDefs(info, fd.Body)
-		// locals holding a func taken from a package-level map of funcs
-		isUnmarshallerCall := func(e ast.Expr) bool {
-			call, ok := unparen(e).(*ast.CallExpr)
+		// isTableLookup: <package-level map of funcs>[key]
+		isTableLookup := func(e ast.Expr) bool {
+			ix, ok := unparen(e).(*ast.IndexExpr)
 			if !ok {
 				return false
 			}
-			f := defs.resolve1(info, call.Fun)
-			if ix, ok := unparen(f).(*ast.IndexExpr); ok {
-				if id, ok := unparen(ix.X).(*ast.Ident); ok {
-					if v, ok := info.ObjectOf(id).(*types.Var); ok && v.Parent() == v.Pkg().Scope() {
-						if m, ok := v.Type().Underlying().(*types.Map); ok {
-							_, isFn := m.Elem().Underlying().(*types.Signature)
-							return isFn
+			id, ok := unparen(ix.X).(*ast.Ident)
+			if !ok {
+				return false
+			}
+			v, ok := info.ObjectOf(id).(*types.Var)
+			if !ok || v.Pkg() == nil || v.Parent() != v.Pkg().Scope() {
+				return false
+			}
+			m, ok := v.Type().Underlying().(*types.Map)
+			if !ok {
+				return false
+			}
+			_, isFn := m.Elem().Underlying().(*types.Signature)
+			return isFn
+		}
+		// fromTable: the table lookup itself, or a local whose every assignment is such a lookup
+		// (`f := table[k]` as well as the comma-ok form `f, ok := table[k]`)
+		fromTable := func(e ast.Expr) bool {
+			if isTableLookup(e) {
+				return true
+			}
+			id, ok := unparen(e).(*ast.Ident)
+			if !ok {
+				return false
+			}
+			o, isVar := info.ObjectOf(id).(*types.Var)
+			if !isVar || o.Pkg() == nil || o.Parent() == o.Pkg().Scope() {
+				return false
+			}
+			all, found := true, false
+			ast.Inspect(fd.Body, func(x ast.Node) bool {
+				switch as := x.(type) {
+				case *ast.AssignStmt:
+					for i, l := range as.Lhs {
+						if lid, ok := l.(*ast.Ident); ok && info.ObjectOf(lid) == o {
+							found = true
+							switch {
+							case len(as.Lhs) == len(as.Rhs) && isTableLookup(as.Rhs[i]):
+							case i == 0 && len(as.Lhs) == 2 && len(as.Rhs) == 1 && isTableLookup(as.Rhs[0]):
+							default:
+								all = false
+							}
+						}
+					}
+				case *ast.ValueSpec:
+					for i, n := range as.Names {
+						if info.ObjectOf(n) == o && len(as.Values) > 0 {
+							found = true
+							if !(len(as.Values) == len(as.Names) && isTableLookup(as.Values[i])) && !(i == 0 && len(as.Names) == 2 && len(as.Values) == 1 && isTableLookup(as.Values[0])) {
+								all = false
+							}
+						}
+					}
+				case *ast.UnaryExpr:
+					if as.Op == token.AND {
+						if aid, ok := unparen(as.X).(*ast.Ident); ok && info.ObjectOf(aid) == o {
+							all = false
 						}
 					}
 				}
-			}
-			return false
+				return true
+			})
+			return all && found
+		}
+		isUnmarshallerCall := func(e ast.Expr) bool {
+			call, ok := unparen(e).(*ast.CallExpr)
+			return ok && fromTable(call.Fun)
 		}
 		// package-level reads
 		okGlobals := true
@@ -55,6 +111,9 @@ func init() {
 				if _, isFn := m.Elem().Underlying().(*types.Signature); isFn {
 					return true
 				}
+			}
+			if _, isBasic := v.Type().Underlying().(*types.Basic); isBasic {
+				return true // a flag, counter or string (debug.Enabled …) cannot hold a decoded object
 			}
 			okGlobals, badGlobal = false, id.Name
 			return true
@@ -77,6 +136,13 @@ func init() {
 			r := unparen(rs.Results[0])
 			good := false
 			why := c.src(r)
+			if d := defs.resolve1(info, r); d != r {
+				if call, ok := d.(*ast.CallExpr); ok {
+					if tv, isT := info.Types[call.Fun]; isT && tv.IsType() {
+						r = d // `text := string(value); return text, nil`
+					}
+				}
+			}
 			if call, ok := r.(*ast.CallExpr); ok {
 				if tv, isT := info.Types[call.Fun]; isT && tv.IsType() && len(call.Args) == 1 {
 					if id, ok := unparen(call.Args[0]).(*ast.Ident); ok {
